@@ -42,6 +42,7 @@ HOSTILE = list("()[]{}'\"\\`$?!@#&|<>=:;,.~^%*+-/ \t\n\r\f\0") + [
 ]
 
 
+MATCH_MACROS = [h + a + t for h in ("match!(", "match !(") for a in ("x", "a, b", "a b c d e", "it's", "@(x + y + z)", "", "a, [b,\n c]") for t in (")\n", ") + f(y)\n", ").c(d, e)\n", "), g!(z)\n", ") if p else q\n", "):\n    case 1: pass\n")]
 MACRO_OPENERS = ["f!(", "g!(a, ", "x = h!(", "f!(a)(b!(", "with! x: ", "with! x:\n    ", "with! a, b:\n  ", "$(cmd! ", "![echo! ", "!(a! ", "$[b! ", "f!(a) b ", "@(f!("]
 MACRO_PIECES = ["(", ")", "[", "]", "{", "}", ",", " ", "a", "b1", "\n", "'s'", "\"", "'", "#c", ":", "!", ";", "\n    ", "$(", "@(", "f'{", "}}", "\\\n", "1", "if", "lambda"]
 
